@@ -6,7 +6,7 @@ CONSTANTS
   Vals <- MCVals
   SliceArgs <- SlicesG
   MaxSize = 5
-  MaxDepth = 8
+  MaxDepth = 7
   Dev = "none"
 VIEW MCView
 CONSTRAINT Depth
